@@ -122,4 +122,10 @@ def auditPath (H : Bytes → Bytes) (l : List Bytes) (i : Nat) : List Part :=
 termination_by l.length
 decreasing_by simp only [pairUp_length, List.length_cons]; omega
 
+/-- the shape of the honest path of leaf `i` among `n` leaves: one side flag per level, flag `k` being bit `k` of `i` -/
+def pathShape (n i : Nat) : List Bool :=
+  if _h : n ≤ 1 then [] else (i % 2 == 1) :: pathShape ((n + 1) / 2) (i / 2)
+termination_by n
+decreasing_by omega
+
 end SymbolVerif.Sdk.Merkle
